@@ -26,9 +26,17 @@ type vfANode struct {
 	topics map[int]*Topic
 	subs   map[int][]*Subscription
 	relays map[int][]RelayCancelFunc
+	fo     bool // this node joins topic 2 in fanout-only mode: its subscriptions there are never announced
 }
 
-func (n *vfANode) interest(tp int) bool { return len(n.subs[tp]) > 0 || len(n.relays[tp]) > 0 }
+const vfATopics = 3
+
+func (n *vfANode) interest(tp int) bool {
+	if tp == 2 && n.fo {
+		return false
+	}
+	return len(n.subs[tp]) > 0 || len(n.relays[tp]) > 0
+}
 
 func vfAnnounceHistory(t *testing.T, rng *rand.Rand, nops int) (lit string, rec map[string]any, nontrivial bool, cancelViol string) {
 	synctest.Test(t, func(t *testing.T) {
@@ -50,7 +58,7 @@ func vfAnnounceHistory(t *testing.T, rng *rand.Rand, nops int) (lit string, rec 
 			if err != nil {
 				t.Fatal(err)
 			}
-			nodes[i] = &vfANode{ps: ps, topics: map[int]*Topic{}, subs: map[int][]*Subscription{}, relays: map[int][]RelayCancelFunc{}}
+			nodes[i] = &vfANode{ps: ps, topics: map[int]*Topic{}, subs: map[int][]*Subscription{}, relays: map[int][]RelayCancelFunc{}, fo: rng.Intn(2) == 0}
 		}
 		tainted := map[[2]int]bool{}
 		key := func(a, b int) [2]int {
@@ -64,7 +72,11 @@ func vfAnnounceHistory(t *testing.T, rng *rand.Rand, nops int) (lit string, rec 
 			if x, ok := n.topics[tp]; ok {
 				return x
 			}
-			x, err := n.ps.Join(vfTopic(tp))
+			var topts []TopicOpt
+			if tp == 2 && n.fo {
+				topts = append(topts, FanoutOnly())
+			}
+			x, err := n.ps.Join(vfTopic(tp), topts...)
 			if err != nil {
 				t.Fatal(err)
 			}
@@ -100,14 +112,14 @@ func vfAnnounceHistory(t *testing.T, rng *rand.Rand, nops int) (lit string, rec 
 			rv := map[string]any{}
 			for i, n := range nodes {
 				var ts []string
-				for tp := 0; tp < 2; tp++ {
+				for tp := 0; tp < vfATopics; tp++ {
 					if n.interest(tp) {
 						ts = append(ts, fmt.Sprint(tp))
 					}
 				}
 				il = append(il, fmt.Sprintf("(%d, [%s])", i, strings.Join(ts, "; ")))
 				var tv []string
-				for tp := 0; tp < 2; tp++ {
+				for tp := 0; tp < vfATopics; tp++ {
 					var ps []int
 					for _, p := range n.ps.ListPeers(vfTopic(tp)) {
 						for j, h := range hosts {
@@ -135,7 +147,7 @@ func vfAnnounceHistory(t *testing.T, rng *rand.Rand, nops int) (lit string, rec 
 		for i := 0; i < nops; i++ {
 			a := rng.Intn(nn)
 			n := nodes[a]
-			tp := rng.Intn(2)
+			tp := rng.Intn(vfATopics)
 			if burst == 0 && rng.Intn(3) == 0 {
 				burst = 2 + rng.Intn(4)
 			}
@@ -288,6 +300,6 @@ func TestVF_Announce(t *testing.T) {
 		}
 		cs.add(lit, rec, nt)
 	}
-	cs.flush("random histories on three REAL nodes (floodsub / gossipsub mixed, outbound queues of 1-2 slots so that announcements are refused and retried): connect, whole-peer disconnect, Subscribe, Subscription.Cancel (checking that Next reports cancellation after draining), Relay, relay-cancel (also twice), Topic.Close, and resets of ONE outbound pubsub stream while the connection stays up; after every operation the network is left alone for six virtual seconds and every node's ListPeers for every topic is compared with the connected peers that hold a subscription or relay reference; " +
+	cs.flush("random histories on three REAL nodes (floodsub / gossipsub mixed, outbound queues of 1-2 slots so that announcements are refused and retried): connect, whole-peer disconnect, Subscribe, Subscription.Cancel (checking that Next reports cancellation after draining), Relay, relay-cancel (also twice), Topic.Close, a third topic that some nodes join in fanout-only mode (their subscriptions to it must never be announced), and resets of ONE outbound pubsub stream while the connection stays up; after every operation the network is left alone for six virtual seconds and every node's ListPeers for every topic is compared with the connected peers that hold a subscription or relay reference; " +
 		"non-trivial = more than two interest flips and more than 8 observed operations; distinct = hash of the observations")
 }
